@@ -158,6 +158,33 @@ theorem C07_F_structTwice_witness :
     gather [("alt.go", ["Other"]), ("t.go", ["Name", "Size"])] = ["Other", "Name", "Size"] ∧
     gather [("t.go", ["Name", "Size"]), ("alt.go", ["Other"])] = ["Name", "Size", "Other"] := by decide
 
+/-! ## generated files are not input -/
+
+/-- what each sub-command's type lister / collector admits as input, as a predicate on a top-level declaration
+    (keyword, declared-name pattern, shape) – from the code: `new`: struct types whose name does not start with `_`
+    (constructor.testNode); `enum`: named integer types and constants with an explicit type (enumer.ListTypes, makeStr);
+    `rest`: interface types (restclient.testNode); `map`: exported struct types (mapper.testNode) -/
+def hasPre (p s : String) : Bool := p.toList.isPrefixOf s.toList
+
+def admits (tmpl kw name shape : String) : Bool :=
+  if tmpl = "internal/constructor/constructor.tmpl" then kw = "type" && shape = "struct" && !hasPre "_" name
+  else if tmpl = "internal/enumer/enumer.tmpl" then (kw = "const" && shape = "typed") || (kw = "type" && shape != "struct" && shape != "interface")
+  else if tmpl = "internal/restclient/restclient.tmpl" then kw = "type" && shape = "interface"
+  else if tmpl = "internal/mapper/mapper.tmpl" then kw = "type" && shape = "struct" && !(hasPre "_" name || hasPre "lower" name)
+  else true
+
+/-- no top-level declaration that a template of the CURRENT source emits is admitted as input by the same
+    sub-command: its generated files are not input to it (besides the designated accessor-interface look-up of `new`,
+    `C07_stale_indep`).  Regenerated table `Facts.tmplTopDecls`. -/
+theorem C07_generated_not_input :
+    Facts.tmplTopDecls.all (fun d => !admits d.1 d.2.1 d.2.2.1 d.2.2.2) = true := by decide
+
+/-- and the enum collector still skips constants without an explicit type that carry a value – such as the generated
+    `const _<t>_max = …` (the conditions under which `makeStr` skips a ValueSpec, from the CURRENT source) -/
+theorem C07_enum_const_rule :
+    Facts.enumConstRule = ["!ok", "vspec.Type == nil && len(vspec.Values) > 0", "vspec.Type != nil", "typ != typeName"] := by
+  decide
+
 /-! ## files on disk -/
 
 /-- stale independence, step level: the analysis of a type reads generated files ONLY through the accessor
@@ -217,9 +244,11 @@ theorem C07_stale_indep_new (fl : NFlags) (hg : fl.getset = true) (ts : List NTy
   rw [generate_eq_seqRun fl hg, generate_eq_seqRun fl hg]
   exact (seqRun_agree noLeaks fl hw ts a b (fun _ h => h) hHa hHb hC hA hd).1
 
-/-- with the proposed repair the dependencies-first hypothesis on the list is not needed (separate files), and in
+/-- NOT A PROPERTY OF THE CODE AT HEAD (`codeRepair = noRepair`): a statement about the PROPOSED repair
+    notes/proposed/deps-first-and-shadow-aio.patch, which was not applied.
+    With the proposed repair the dependencies-first hypothesis on the list is not needed (separate files), and in
     all-in-one mode the run never sees its own earlier output, so it is a fixpoint over ANY directory -/
-theorem C07_fixpoint_repaired (fl : NFlags) (hg : fl.getset = true) (rp : Repair) (ts : List NType) (d : Disk) :
+theorem C07_proposed_repair_fixpoint (fl : NFlags) (hg : fl.getset = true) (rp : Repair) (ts : List NType) (d : Disk) :
     (rp.depsFirst = true → RunOK ts d →
       generateR rp (newMachine codeToday fl) .sep
           (afterRun d (writtenSep (newMachine codeToday fl) (generateR rp (newMachine codeToday fl) .sep d ts))) ts
@@ -262,7 +291,7 @@ theorem C07_F_staleAllInOne_witness :
     (generate m disk1 [hM false, hZ]).map (·.2.jget) = [[], ["name", "id"]] ∧
     (generate m [] [hM false, hZ]).map (·.2.jget) = [[], ["id"]] := by decide
 
-/-- `C07_fixpoint_new` / `C07_fixpoint_repaired`: [E, A] is hygienic over a directory with stale output (decidable check);
+/-- `C07_fixpoint_new` / `C07_proposed_repair_fixpoint`: [E, A] is hygienic over a directory with stale output (decidable check);
     the embedder-first list [A, E] is a fixpoint with the repair (A has EGetter in the first run already) -/
 example : hygB [hE, hA] [{ name := "t.shootnew.e.go", defs := [("EGetter", {})] }] = true ∧
     (let m := newMachine codeToday { getset := true }
